@@ -704,7 +704,36 @@ func (w *worker) truths(L *layout, rows []*row, es []*expr) [][]byte {
 	return out
 }
 
+var ruAcc [5][3]float64 // phase -> user, sys, wall
+
+func ruNow() (float64, float64) {
+	var ru syscall.Rusage
+	syscall.Getrusage(syscall.RUSAGE_SELF, &ru)
+	return float64(ru.Utime.Sec) + float64(ru.Utime.Usec)/1e6, float64(ru.Stime.Sec) + float64(ru.Stime.Usec)/1e6
+}
+
+type ruLap struct {
+	u, s float64
+	t    time.Time
+}
+
+func (l *ruLap) lap(phase int) {
+	if os.Getenv("VERIF_C10_DEBUG") == "" {
+		return
+	}
+	u, s := ruNow()
+	n := time.Now()
+	if !l.t.IsZero() && phase >= 0 {
+		ruAcc[phase][0] += u - l.u
+		ruAcc[phase][1] += s - l.s
+		ruAcc[phase][2] += n.Sub(l.t).Seconds()
+	}
+	l.u, l.s, l.t = u, s, n
+}
+
 func (w *worker) judge(ds *dataset, e *expr, tv []byte) *outcome {
+	var rl ruLap
+	rl.lap(-1)
 	where := e.render()
 	o := &outcome{Kinds: map[string]string{}}
 	if tv == nil {
@@ -732,6 +761,7 @@ func (w *worker) judge(ds *dataset, e *expr, tv []byte) *outcome {
 
 	dbname := w.materialise(ds)
 	defer func() { os.RemoveAll(filepath.Join(w.storeDir(), dbname)) }()
+	rl.lap(0)
 
 	// dry run
 	st, dr, raw := w.post(dbname, where, true)
@@ -743,6 +773,7 @@ func (w *worker) judge(ds *dataset, e *expr, tv []byte) *outcome {
 			o.Kinds["dryrun-count"] = fmt.Sprintf("dry run reported deleted_count=%d, the predicate is true on %d rows", dr.DeletedCount, nT)
 		}
 	}
+	rl.lap(1)
 	unchanged := true
 	for file, b := range ds.Files {
 		cur, err := os.ReadFile(filepath.Join(w.storeDir(), dbname, fileRel[file]))
@@ -762,7 +793,9 @@ func (w *worker) judge(ds *dataset, e *expr, tv []byte) *outcome {
 	}
 
 	// confirmed delete
+	rl.lap(2)
 	st, del, raw := w.post(dbname, where, false)
+	rl.lap(3)
 	o.Status = st
 	failed := map[int]bool{}
 	whole := false // the request failed as a whole
@@ -793,6 +826,7 @@ func (w *worker) judge(ds *dataset, e *expr, tv []byte) *outcome {
 	}
 	// the measurement afterwards
 	after, err := w.readMeasurement(dbname)
+	rl.lap(4)
 	if err != nil {
 		o.Kinds["unreadable-after"] = "measurement unreadable after delete: " + err.Error()
 		return o
@@ -920,7 +954,7 @@ func childMain(run *ev.Run, spec string, layouts []*layout) {
 		enc.Encode(result{i, o})
 	}
 	out.Flush()
-	dbg("cases done")
+	dbg(fmt.Sprintf("cases done; [user sys wall] prep=%.2f dry=%.2f cmp=%.2f delete=%.2f read=%.2f", ruAcc[0], ruAcc[1], ruAcc[2], ruAcc[3], ruAcc[4]))
 	w.arcdb.Close()
 	w.oracle.Close()
 	os.Exit(0)
